@@ -58,6 +58,36 @@ def run(ctx):
 
 
 # ---------------------------------------------------------------------------------- (1) lock-step
+def level_base(e, L):
+    """if address/value expression e goes through a level-map entry, return (kind, key expr, default):
+    kind 'get_mut' (existing entry) or 'or_insert' (entry created with `default` when absent)"""
+    for x in walk(e):
+        if x[0] == "call" and x[4] == "get_mut" and x[2] and fld(x[2][0], L):
+            return ("get_mut", x[2][1], None)
+        if x[0] == "call" and x[4] in ("or_insert", "or_default") and x[2] and x[2][0][0] == "call" and x[2][0][4] == "entry" and fld(x[2][0][2][0], L):
+            return ("or_insert", x[2][0][2][1], x[2][1] if len(x[2]) > 1 else ("agg", "tuple", "", (("const", "u32", "0", 0), ("const", "u32", "0", 0)), ()))
+    return None
+
+
+def level_updates(q, L):
+    """writes to components of a level-map entry: list of (Write, component, op, operand, base)"""
+    out = []
+    for w in q.writes():
+        base = level_base(w.addr, L)
+        if base is None or w.field not in ("0", "1"):
+            continue
+        b = bin_of(w.val)
+        if b is None:
+            out.append((w, w.field, "?", w.val, base))
+        else:
+            out.append((w, w.field, b[0], b[2], base))
+    return out
+
+
+def is_const(e, v):
+    return e[0] == "const" and e[3] == v
+
+
 def lockstep(ctx, m):
     ins = m.side_inner("insert_order")
     rem = m.side_inner("remove_order")
@@ -67,75 +97,101 @@ def lockstep(ctx, m):
     def map_calls(q, name, fieldname):
         return [c for c in q.calls(name) if c.args and fld(c.args[0], fieldname) and "BTreeMap" in c.resolved]
 
-    # ---- insert
-    q = m.q(ins)
-    key, idx, vol = [("param", i + 1, n) for i, n in enumerate(q.fn.params)][1:4]
+    def params(q):
+        return [("param", i + 1, n) for i, n in enumerate(q.fn.params)]
 
-    def kf(i):
+    def kf(key, i):
         return ("field", key, str(i), "")
 
+    def unconditional(x):
+        return not x.guards
+
+    def total_update(q, op, vol):
+        tw = [w for w in q.writes(field=T) if w.root[0] == "param"]
+        ok = len(tw) == 1 and unconditional(tw[0]) and bin_of(tw[0].val) and bin_of(tw[0].val)[0] == op and same(bin_of(tw[0].val)[2], vol) and fld(bin_of(tw[0].val)[1], T)
+        return ok, tw
+
+    # ---- insert
+    q = m.q(ins)
+    key, idx, vol = params(q)[1:4]
     pc = map_calls(q, "insert", P)
-    ok = len(pc) == 1 and not pc[0].guards and not q.cfg.in_loop(pc[0].b)
+    ok = len(pc) == 1 and unconditional(pc[0]) and not q.cfg.in_loop(pc[0].b)
     if ok:
         k = pc[0].args[1]
-        ok = k[0] == "agg" and k[1] == "tuple" and len(k[3]) == 2 and same(k[3][0], kf(1)) and same(k[3][1], kf(2)) and same(pc[0].args[2], idx)
+        ok = k[0] == "agg" and k[1] == "tuple" and len(k[3]) == 2 and same(k[3][0], kf(key, 1)) and same(k[3][1], kf(key, 2)) and same(pc[0].args[2], idx)
     ctx.check(ok, "lockstep", "insert|prio", ctx.loc(ins), "insert: priority map gets (key.1, key.2) -> id, once, unconditionally",
-              "insert: priority-map insertion is not `orders.insert((key.1, key.2), idx)` exactly once")
-    lv_new = [c for c in map_calls(q, "insert", L)]
-    ok = len(lv_new) == 1 and same(lv_new[0].args[1], kf(1)) and lv_new[0].args[2][0] == "agg" and len(lv_new[0].args[2][3]) == 2 \
-        and same(lv_new[0].args[2][3][0], vol) and lv_new[0].args[2][3][1][0] == "const" and lv_new[0].args[2][3][1][3] == 1 \
-        and any(a[0] == "variant" and a[2] == ("None",) for a in lv_new[0].guards)
-    ctx.check(ok, "lockstep", "insert|new-level", ctx.loc(ins), "insert: a new price level is created as (vol, 1) only when the level is absent",
-              "insert: new level is not created as (vol, 1) under the level-absent branch")
-    lw = [w for w in q.writes() if any(x[0] == "call" and x[4] == "get_mut" and fld(x[2][0], L) for x in walk(w.addr))]
-    okv = [w for w in lw if w.field == "0" and bin_of(w.val) and bin_of(w.val)[0] == "Add" and same(bin_of(w.val)[2], vol)]
-    okc = [w for w in lw if w.field == "1" and bin_of(w.val) and bin_of(w.val)[0] == "Add" and bin_of(w.val)[2][0] == "const" and bin_of(w.val)[2][3] == 1]
-    keyed = all(any(x[0] == "call" and x[4] == "get_mut" and same(x[2][1], kf(1)) for x in walk(w.addr)) for w in lw)
-    ctx.check(len(lw) == 2 and len(okv) == 1 and len(okc) == 1 and keyed, "lockstep", "insert|level", ctx.loc(ins),
-              "insert: existing level at key.1 gets volume += vol and count += 1",
-              "insert: existing level update is not (volume += vol, count += 1) at key.1: %s" % "; ".join(w.text() for w in lw))
-    tw = [w for w in q.writes(field=T) if w.root[0] == "param"]
-    ok = len(tw) == 1 and not tw[0].guards and bin_of(tw[0].val) and bin_of(tw[0].val)[0] == "Add" and same(bin_of(tw[0].val)[2], vol) and fld(bin_of(tw[0].val)[1], T)
+              "insert: priority-map insertion is not `insert((key.1, key.2), idx)` exactly once")
+    ups = level_updates(q, L)
+    keyed = all(same(u[4][1], kf(key, 1)) for u in ups)
+    vol_up = [u for u in ups if u[1] == "0" and u[2] == "Add" and same(u[3], vol)]
+    cnt_up = [u for u in ups if u[1] == "1" and u[2] == "Add" and is_const(u[3], 1)]
+    kinds = {u[4][0] for u in ups}
+    new_level_ok = False
+    if kinds == {"get_mut"}:
+        # idiom A: existing level updated under Some, new level inserted as (vol, 1) under None
+        lv_new = map_calls(q, "insert", L)
+        new_level_ok = len(lv_new) == 1 and same(lv_new[0].args[1], kf(key, 1)) and lv_new[0].args[2][0] == "agg" and len(lv_new[0].args[2][3]) == 2 \
+            and same(lv_new[0].args[2][3][0], vol) and is_const(lv_new[0].args[2][3][1], 1) \
+            and any(a[0] == "variant" and a[2] == ("None",) for a in lv_new[0].guards) \
+            and all(any(a[0] == "variant" and a[2] == ("Some",) for a in u[0].guards) for u in ups)
+        how = "existing level: volume += vol, count += 1; absent level created as (vol, 1)"
+    elif kinds == {"or_insert"}:
+        # idiom B: entry(key.1).or_insert((0, 0)) then unconditional += on both components
+        d = ups[0][4][2]
+        new_level_ok = d[0] == "agg" and len(d[3]) == 2 and is_const(d[3][0], 0) and is_const(d[3][1], 0) and all(unconditional(u[0]) for u in ups) \
+            and not map_calls(q, "insert", L)
+        how = "entry(key.1).or_insert((0, 0)) then volume += vol, count += 1"
+    else:
+        how = "?"
+    ctx.check(len(ups) == 2 and len(vol_up) == 1 and len(cnt_up) == 1 and keyed and new_level_ok, "lockstep", "insert|level", ctx.loc(ins),
+              "insert: level at key.1 -- " + how, "insert: the level at key.1 is not updated by (volume += vol, count += 1) with an absent level starting from (vol, 1): %s" % "; ".join(u[0].text() for u in ups))
+    ok, tw = total_update(q, "Add", vol)
     ctx.check(ok, "lockstep", "insert|total", ctx.loc(ins), "insert: side total += vol, unconditionally",
               "insert: side total is not increased by vol exactly once: %s" % "; ".join(w.text() for w in tw))
 
     # ---- remove
     q = m.q(rem)
-    key, vol = [("param", i + 1, n) for i, n in enumerate(q.fn.params)][1:3]
+    key, vol = params(q)[1:3]
     pc = map_calls(q, "remove", P)
-    ok = len(pc) == 1 and not pc[0].guards
+    ok = len(pc) == 1 and unconditional(pc[0])
     if ok:
         k = pc[0].args[1]
-        ok = k[0] == "agg" and len(k[3]) == 2 and same(k[3][0], kf(1)) and same(k[3][1], kf(2))
+        ok = k[0] == "agg" and len(k[3]) == 2 and same(k[3][0], kf(key, 1)) and same(k[3][1], kf(key, 2))
     ctx.check(ok, "lockstep", "remove|prio", ctx.loc(rem), "remove: priority map entry (key.1, key.2) removed, once, unconditionally",
-              "remove: priority-map removal is not `orders.remove(&(key.1, key.2))` exactly once")
-    lw = [w for w in q.writes() if any(x[0] == "call" and x[4] == "get_mut" and fld(x[2][0], L) for x in walk(w.addr))]
-    okv = [w for w in lw if w.field == "0" and bin_of(w.val) and bin_of(w.val)[0] == "Sub" and same(bin_of(w.val)[2], vol) and not w.guards]
-    okc = [w for w in lw if w.field == "1" and bin_of(w.val) and bin_of(w.val)[0] == "Sub" and bin_of(w.val)[2][0] == "const" and bin_of(w.val)[2][3] == 1 and not w.guards]
-    keyed = all(any(x[0] == "call" and x[4] == "get_mut" and same(x[2][1], kf(1)) for x in walk(w.addr)) for w in lw)
-    ctx.check(len(lw) == 2 and len(okv) == 1 and len(okc) == 1 and keyed, "lockstep", "remove|level", ctx.loc(rem),
+              "remove: priority-map removal is not `remove(&(key.1, key.2))` exactly once")
+    ups = level_updates(q, L)
+    keyed = all(same(u[4][1], kf(key, 1)) and u[4][0] == "get_mut" for u in ups)
+    vol_up = [u for u in ups if u[1] == "0" and u[2] == "Sub" and same(u[3], vol) and unconditional(u[0])]
+    cnt_up = [u for u in ups if u[1] == "1" and u[2] == "Sub" and is_const(u[3], 1) and unconditional(u[0])]
+    ctx.check(len(ups) == 2 and len(vol_up) == 1 and len(cnt_up) == 1 and keyed, "lockstep", "remove|level", ctx.loc(rem),
               "remove: level at key.1 gets volume -= vol and count -= 1",
-              "remove: level update is not (volume -= vol, count -= 1) at key.1: %s" % "; ".join(w.text() for w in lw))
+              "remove: level update is not (volume -= vol, count -= 1) at key.1: %s" % "; ".join(u[0].text() for u in ups))
     drop = map_calls(q, "remove", L)
-    ok = len(drop) == 1 and same(drop[0].args[1], kf(1)) and any(
-        a[0] == "cmp" and a[1] == "eq" and a[3][0] == "const" and a[3][3] == 0 and a[2][0] == "field" and a[2][2] == "1" for a in drop[0].guards)
+
+    def count_zero(a):
+        if a[0] != "cmp" or a[1] != "eq":
+            return False
+        x, y = a[2], a[3]
+        for u, v in ((x, y), (y, x)):
+            if is_const(v, 0) and u[0] == "field" and u[2] == "1" and level_base(u, L) is not None:
+                return True
+        return False
+    ok = len(drop) == 1 and same(drop[0].args[1], kf(key, 1)) and any(count_zero(a) for a in drop[0].guards)
     ctx.check(ok, "lockstep", "remove|drop-level", ctx.loc(rem), "remove: the level is dropped only when its order count reached 0",
               "remove: level dropped under %s (expected: count == 0)" % (drop[0].gtext() if drop else "no drop site"))
-    tw = [w for w in q.writes(field=T) if w.root[0] == "param"]
-    ok = len(tw) == 1 and not tw[0].guards and bin_of(tw[0].val) and bin_of(tw[0].val)[0] == "Sub" and same(bin_of(tw[0].val)[2], vol) and fld(bin_of(tw[0].val)[1], T)
+    ok, tw = total_update(q, "Sub", vol)
     ctx.check(ok, "lockstep", "remove|total", ctx.loc(rem), "remove: side total -= vol, unconditionally",
               "remove: side total is not decreased by vol exactly once: %s" % "; ".join(w.text() for w in tw))
 
     # ---- remove volume
     q = m.q(rvol)
-    price, vol = [("param", i + 1, n) for i, n in enumerate(q.fn.params)][1:3]
-    lw = [w for w in q.writes() if any(x[0] == "call" and x[4] == "get_mut" and fld(x[2][0], L) for x in walk(w.addr))]
-    ok = len(lw) == 1 and lw[0].field == "0" and bin_of(lw[0].val) and bin_of(lw[0].val)[0] == "Sub" and same(bin_of(lw[0].val)[2], vol) and not lw[0].guards \
-        and any(x[0] == "call" and x[4] == "get_mut" and same(x[2][1], price) for x in walk(lw[0].addr))
+    price, vol = params(q)[1:3]
+    ups = level_updates(q, L)
+    ok = len(ups) == 1 and ups[0][1] == "0" and ups[0][2] == "Sub" and same(ups[0][3], vol) and unconditional(ups[0][0]) and same(ups[0][4][1], price) and ups[0][4][0] == "get_mut"
     ctx.check(ok, "lockstep", "remove_vol|level", ctx.loc(rvol), "remove_vol: level volume at `price` -= vol (count untouched)",
-              "remove_vol: level update is not `volume -= vol` at price: %s" % "; ".join(w.text() for w in lw))
+              "remove_vol: level update is not `volume -= vol` at price: %s" % "; ".join(u[0].text() for u in ups))
     tw = [w for w in q.writes(field=T) if w.root[0] == "param"]
-    ok = len(tw) == 1 and not tw[0].guards and bin_of(tw[0].val) and bin_of(tw[0].val)[0] == "Sub" and same(bin_of(tw[0].val)[2], vol)
+    ok = len(tw) == 1 and unconditional(tw[0]) and bin_of(tw[0].val) and bin_of(tw[0].val)[0] == "Sub" and same(bin_of(tw[0].val)[2], vol)
     ctx.check(ok, "lockstep", "remove_vol|total", ctx.loc(rvol), "remove_vol: side total -= vol",
               "remove_vol: side total is not decreased by vol exactly once: %s" % "; ".join(w.text() for w in tw))
     membership = [c for c in q.calls(("insert", "remove", "pop_first", "pop_last", "clear", "retain", "entry")) if "BTreeMap" in c.resolved]
@@ -151,32 +207,59 @@ def lockstep(ctx, m):
 
 
 def side_queries(ctx, m):
+    from analysis.beta import normalize
     P, L, T = m.s_prio, m.s_levels, m.s_total
+
+    def alts_of(f):
+        r = normalize(m.w, m.q(f).ret())
+        # flatten nested phis
+        out = []
+
+        def fl(e):
+            if e[0] == "phi":
+                for a in e[1]:
+                    fl(a)
+            elif e not in out:
+                out.append(e)
+        fl(r)
+        return r, out
+
+    def first_of(e, fieldname):
+        return any(x[0] == "call" and x[4] == "first_key_value" and fld(x[2][0], fieldname) for x in walk(e))
     # queries: best price / best id read the FIRST entry of the priority map
     for name, fieldname in (("best_price", P), ("best_order_idx", P), ("best_vol", L), ("best_vol_and_orders", L)):
         f = m.side_inner(name)
-        q = m.q(f)
-        firsts = [c for c in q.calls("first_key_value") if fld(c.args[0], fieldname)]
-        others = [c for c in q.calls() if "BTreeMap" in c.resolved and c.name != "first_key_value"]
-        ctx.check(len(firsts) == 1 and not others, "lockstep", "query|" + name, ctx.loc(f), "%s reads the first entry of self.%s" % (name, fieldname),
-                  "%s does not read (only) the first entry of self.%s: %s" % (name, fieldname, "; ".join(c.text() for c in q.calls() if "BTreeMap" in c.resolved)))
+        reach = [g for g in m.w.reachable([f]) if g.crate.name == "bourse_book"]
+        calls = [c for g in reach for c in m.q(g).calls() if "BTreeMap" in c.resolved]
+        firsts = [c for c in calls if c.name == "first_key_value" and fld(c.args[0], fieldname)]
+        others = [c for c in calls if c.name != "first_key_value"]
+        ctx.check(len(firsts) >= 1 and not others, "lockstep", "query|" + name, ctx.loc(f), "%s reads the first entry of self.%s" % (name, fieldname),
+                  "%s does not read (only) the first entry of self.%s: %s" % (name, fieldname, "; ".join(c.text() for c in calls)))
     f = m.side_inner("best_price")
-    r = m.q(f).ret()
-    alts = r[1] if r[0] == "phi" else (r,)
-    ok = any(is_max_u32(a) for a in alts) and any(a[0] == "field" and a[2] == "0" and a[1][0] == "field" and a[1][2] == "0" for a in alts) and len(alts) == 2
+    r, alts = alts_of(f)
+    ok = len(alts) == 2 and any(is_max_u32(a) for a in alts) and any(a[0] == "field" and a[2] == "0" and a[1][0] == "field" and a[1][2] == "0" and first_of(a, P) for a in alts)
     ctx.check(ok, "lockstep", "query|best_price-value", ctx.loc(f), "best_price = price component of the first key, or MAX when empty", "best_price returns %s" % render(r))
     f = m.side_inner("best_vol")
-    r = m.q(f).ret()
-    alts = r[1] if r[0] == "phi" else (r,)
-    ok = len(alts) == 2 and any(a[0] == "const" and a[3] == 0 for a in alts) and any(a[0] == "field" and a[2] == "0" and a[1][0] == "field" and a[1][2] == "1" for a in alts)
+    r, alts = alts_of(f)
+
+    def first_level_component(a, comp):
+        return a[0] == "field" and a[2] == comp and ((a[1][0] == "field" and a[1][2] == "1" and first_of(a, L)) or (a[1][0] == "call" and a[1][4] == "best_vol_and_orders"))
+    ok = (len(alts) == 2 and any(a[0] == "const" and a[3] == 0 for a in alts) and any(first_level_component(a, "0") for a in alts)) or \
+        (len(alts) == 1 and first_level_component(alts[0], "0"))
     ctx.check(ok, "lockstep", "query|best_vol-value", ctx.loc(f), "best_vol = volume component (.0) of the first level, or 0 when empty", "best_vol returns %s" % render(r))
+    f = m.side_inner("best_vol_and_orders")
+    r, alts = alts_of(f)
+    ok = len(alts) == 2 and any(a[0] == "agg" and len(a[3]) == 2 and all(is_const(x, 0) for x in a[3]) for a in alts) and any(a[0] == "field" and a[2] == "1" and first_of(a, L) for a in alts)
+    ctx.check(ok, "lockstep", "query|best_vol_and_orders-value", ctx.loc(f), "best_vol_and_orders = (volume, count) of the first level, or (0, 0) when empty", "best_vol_and_orders returns %s" % render(r))
     f = m.side_inner("vol")
     ctx.check(fld(m.q(f).ret(), T), "lockstep", "query|vol", ctx.loc(f), "vol() returns the side total", "vol() returns %s" % render(m.q(f).ret()))
     f = m.side_inner("vol_and_orders_at_price")
     q = m.q(f)
     gets = [c for c in q.calls("get") if fld(c.args[0], L) and c.args[1][0] == "param"]
-    ctx.check(len(gets) == 1, "lockstep", "query|at_price", ctx.loc(f), "vol_and_orders_at_price looks up the level map at its price argument",
-              "vol_and_orders_at_price does not look up self.%s at the price argument" % L)
+    r, alts = alts_of(f)
+    okv = len(alts) == 2 and any(a[0] == "agg" and len(a[3]) == 2 and all(is_const(x, 0) for x in a[3]) for a in alts)
+    ctx.check(len(gets) == 1 and okv, "lockstep", "query|at_price", ctx.loc(f), "vol_and_orders_at_price looks up the level map at its price argument ((0, 0) when absent)",
+              "vol_and_orders_at_price does not look up self.%s at the price argument: returns %s" % (L, render(r)))
 
 
 # ---------------------------------------------------------------------------------- wrappers (K2 mirror)
